@@ -13,7 +13,7 @@ def prebuild():
 
 
 def run(ctx):
-    ctx.rule = ("(a) complete product: statement kind {static macro, LOG_DYNAMIC, LOG_RUNTIME_METADATA} x 9 levels x logger level "
+    ctx.rule = ("(a) complete product: statement kind {static macro, LOG_DYNAMIC, LOG_RUNTIME_METADATA; value macros LOGV_ and tags macros LOG_*_TAGS where the first sink has no filter} x 9 levels x logger level "
                 "{9 levels, None} x two sinks each with threshold {TraceL3, Warning, Critical} x filter set {none, reject-odd, "
                 "reject-all, both} x override pattern {none, on the second sink, on the first sink}, each statement with a side-effect argument; (b) a walk "
                 "through every ordered pair of statement kinds (static/dynamic level, plain/named args, run-time metadata) with "
